@@ -987,10 +987,26 @@ def _narrow_nodes(ctx, fv, e, depth, seen):
                                 dty = cb._types[st.rv.extra] if isinstance(st.rv.extra, int) else None
                                 from .cfg import INT_WIDTH
                                 if sty in INT_WIDTH and dty in INT_WIDTH and INT_WIDTH[sty] > INT_WIDTH[dty]:
-                                    out.append((cb, ("narrow", sty, dty, cv.expr(o))))
+                                    if not _cast_guarded(ctx, cb, bi, o, dty):
+                                        out.append((cb, ("narrow", sty, dty, cv.expr(o))))
                             for o in st.rv.ops:
                                 out += _narrow_nodes(ctx, cv, cv.expr(o), depth - 1, seen | {cb.d.id})
     return out
+
+
+def _cast_guarded(ctx, cb, bi, operand, dty):
+    """the narrowing cast in block bi only runs when its operand fits the target type: the block is unreachable in the
+    scenario `operand > MAX(target)` (`if x > u32::MAX as u128 { u32::MAX } else { x as u32 }`, `min(x, MAX) as u32`)"""
+    from . import atoms
+    from .cfg import INT_WIDTH
+    try:
+        nv = fnview(ctx, cb, policy=False).named()
+        name = render(nv.expr(operand))
+        mx = (1 << INT_WIDTH[dty]) - 1 if dty.startswith("u") else (1 << (INT_WIDTH[dty] - 1)) - 1
+        cut = atoms.scenario_cut(nv, [atoms.parse_atom(f"{name} > {mx}")])
+        return bool(cut) and bi not in nv.reach(0, cut_edges=cut)
+    except Exception:
+        return False
 
 
 def bound_comparisons_untruncated(ctx, rid, body, bound_pred, key, depth=2):
